@@ -2,6 +2,7 @@
 From Coq Require Import List NArith ZArith Bool Arith String.
 Import ListNotations.
 Require Import Emit EmitLemmas GenGlobals GlobalsPolicy StandaloneLemmas.
+Require EmitGrows EmitPrefix.
 
 (* KIND C19_no_handler_can_swallow : F *)
 (* regenerated from lib/yaml: every try/except catches one of UnicodeEncodeError, binascii.Error, ImportError, IndexError, UnicodeDecodeError, TypeError
@@ -11,6 +12,12 @@ Require Import Emit EmitLemmas GenGlobals GlobalsPolicy StandaloneLemmas.
 Theorem C19_no_handler_can_swallow : forallb handler_ok handlers = true.
 Proof. exact l_handlers_ok. Qed.
 Eval vm_compute in "ASSUME:C19_no_handler_can_swallow"%string. Print Assumptions C19_no_handler_can_swallow.
+
+(* KIND C19_handlers_exact : F *)
+(* the try/except/finally inventory of lib/yaml is exactly the pinned one: a new handler anywhere (e.g. an EAFP rewrite around a user callback) breaks this obligation *)
+Theorem C19_handlers_exact : handlers_eqb handlers expected_handlers = true.
+Proof. exact l_handlers_exact. Qed.
+Eval vm_compute in "ASSUME:C19_handlers_exact"%string. Print Assumptions C19_handlers_exact.
 
 (* KIND C19_class_state_untouched : F *)
 (* a failed call cannot leave library-global state behind: the only writes to module/class-level containers are in the registration API (see C11) *)
@@ -25,6 +32,14 @@ Theorem C19_events_consumed_left_to_right : forall es1 es2 s,
   emit_all (es1 ++ es2)%list s = match emit_state es1 s with inl s' => emit_all es2 s' | inr r => r end.
 Proof. exact l_emit_all_app. Qed.
 Eval vm_compute in "ASSUME:C19_events_consumed_left_to_right"%string. Print Assumptions C19_events_consumed_left_to_right.
+
+(* KIND C19_emit_prefix_monotone : U *)
+(* the emitter model's output is append-only (46 generated lemmas, one per function of Model/Emit.v: every run - returning, raising EmitterError or crashing - only
+   conses chunks onto the output).  Hence for ALL event lists and ALL states: the chunks written for a prefix of the events are a prefix of the chunks written for
+   the whole stream, also when the run ends in an error *)
+Theorem C19_emit_prefix_monotone : forall es1 es2 s, exists d, fst (emit_all (es1 ++ es2)%list s) = (fst (emit_all es1 s) ++ d)%list.
+Proof. exact EmitPrefix.l_emit_prefix_monotone. Qed.
+Eval vm_compute in "ASSUME:C19_emit_prefix_monotone"%string. Print Assumptions C19_emit_prefix_monotone.
 
 (* PARTIAL: fault_propagates with oracle streams/callbacks in the model and writes_are_prefix (append-only output of every emitter state function) are not proved;
    decided by the direct run: an injected unique exception at EVERY index of the write()/flush()/read()/user-constructor/user-representer sequence must reach the
